@@ -961,3 +961,302 @@ def linear(n, leaf, resolve=None):
 def is_zero_literal(n):
     n = skip(n)
     return n is not None and n.get("k") == "IntegerLiteral" and str(n.get("v")) == "0"
+
+
+# ----------------------------------------------------------------------------- aliases of protected storage
+# (additive: used by C38's "protected alias" clause of R-LOCK; nothing above depends on it)
+
+_VIEW_TYPES = ("string_view", "std::span", "reference_wrapper", "initializer_list")
+
+
+def carries_alias(t, dt=None):
+    """The type can hold a non-owning handle into somebody else's storage: a raw pointer, an iterator or a view, directly
+    or as a template argument (pair<iterator, bool>, vector<T *>).  Owning / value types (size_t, std::string,
+    std::shared_ptr<T>) do not.  The desugared spelling is preferred (it resolves `auto`, typedefs and tuple_element)."""
+    s = dt or t or ""
+    for _ in range(6):          # function types and function-pointer declarators say nothing about stored handles
+        s2 = re.sub(r"\([^()]*\)", "", s)
+        if s2 == s:
+            break
+        s = s2
+    return "*" in s or "iterator" in s.lower() or any(v in s for v in _VIEW_TYPES)
+
+
+def parent_map(fn_node):
+    """{id(child node): parent node} over a function (lambda bodies included)."""
+    par = {}
+    for x in cir.walk(fn_node):
+        for c in cir.kids(x):
+            if c:
+                par[id(c)] = x
+    return par
+
+
+_ALIAS_CASTS = {"ParenExpr", "ImplicitCastExpr", "CStyleCastExpr", "CXXStaticCastExpr", "CXXConstCastExpr",
+                "CXXReinterpretCastExpr", "CXXFunctionalCastExpr", "CXXDynamicCastExpr", "ExprWithCleanups", "ConstantExpr",
+                "FullExpr", "SubstNonTypeTemplateParmExpr"}
+_ALIAS_TEMPS = {"MaterializeTemporaryExpr", "CXXBindTemporaryExpr"}
+_CMP_OPS = ("==", "!=", "<", ">", "<=", ">=", "<=>")
+
+
+class AliasEval:
+    """Does an expression designate, or evaluate to a handle into, storage that a lock protects?
+
+    value(e, env) -> None | (cls, root, stale)
+        cls   "L": e is a glvalue designating protected storage (a member, an element, `*p`, `it->second`, a reference
+                   bound to one of those, the result of a call on such an object that is not a temporary);
+              "V": e is a value that points into it (address of an "L", an iterator / raw pointer / view returned by a call
+                   on such an object, a raw pointer read out of it, a local holding one of these);
+        root  the name of the protected member the storage belongs to;
+        stale the handle was obtained in a lock region that has ended since.
+    env: {VarDecl/BindingDecl id: (root, stale)} of the locals that currently hold such a handle; `is_ref(id)` says whether a
+    local is a reference (then mentioning it designates the storage itself).  `member_root(mid)` names a protected data
+    member of `this` (else None), `own_call_root(call)` names what a call of an own-class method on `this` hands out.
+    Only data flow and types decide: a call result is a handle when its type can carry one (`carries_alias`), it designates
+    protected storage when it is used as an lvalue (clang wraps class prvalues in MaterializeTemporaryExpr /
+    CXXBindTemporaryExpr: those are copies); everything copied by value into a type that cannot carry a handle is clean."""
+
+    def __init__(self, member_root, own_call_root, is_ref):
+        self.member_root, self.own_call_root, self.is_ref = member_root, own_call_root, is_ref
+
+    @staticmethod
+    def _join(*vals):
+        vals = [v for v in vals if v is not None and v[0] != "T"]
+        if not vals:
+            return None
+        return vals[0][1], any(v[2] for v in vals)
+
+    def value(self, e, env):
+        if e is None:
+            return None
+        k = e.get("k")
+        c = [x for x in cir.kids(e) if x is not None]
+        if k in _ALIAS_CASTS:
+            if not c:
+                return None
+            r = self.value(c[-1], env)
+            if r is None or r[0] == "T":
+                return r
+            if k == "ImplicitCastExpr" and e.get("ck") == "LValueToRValue" and r[0] == "L":
+                return ("V", r[1], r[2]) if carries_alias(e.get("t"), e.get("dt")) else None
+            if k == "ImplicitCastExpr" and e.get("ck") == "ArrayToPointerDecay" and r[0] == "L":
+                return ("V", r[1], r[2])
+            return r
+        if k in _ALIAS_TEMPS:
+            r = self.value(c[-1], env) if c else None
+            if r is not None and r[0] == "L":          # a materialised prvalue is a copy, not the protected object
+                return ("V", r[1], r[2]) if carries_alias(e.get("t"), e.get("dt")) else None
+            return r
+        if k == "CXXThisExpr":
+            return ("T", None, False)
+        if k == "DeclRefExpr":
+            rid = (e.get("ref") or {}).get("id")
+            if rid in env:
+                root, stale = env[rid]
+                return ("L" if self.is_ref(rid) else "V", root, stale)
+            return None
+        if k == "MemberExpr":
+            b = self.value(c[0], env) if c else ("T", None, False)
+            if b is None:
+                return None
+            if b[0] == "T":
+                root = self.member_root(e.get("mid"))
+                return ("L", root, False) if root else None
+            if e.get("t") == "<bound member function type>":
+                return b
+            if e.get("arrow") or b[0] == "L":
+                return ("L", b[1], b[2])
+            # member of a by-value aggregate that holds handles (pair<iterator, bool>::first)
+            return ("V", b[1], b[2]) if carries_alias(e.get("t"), e.get("dt")) else None
+        if k == "UnaryOperator":
+            op = e.get("op")
+            r = self.value(c[0], env) if c else None
+            if r is None or r[0] == "T":
+                return None
+            if op == "*":
+                return ("L", r[1], r[2])
+            if op == "&":
+                inner = cir.strip(c[0], casts=False)
+                if inner is not None and inner.get("k") == "DeclRefExpr" and r[0] == "V":
+                    return None                          # address of the local that holds the handle
+                return ("V", r[1], r[2])
+            if op in ("++", "--"):
+                return r
+            return None
+        if k == "ArraySubscriptExpr":
+            j = self._join(*(self.value(x, env) for x in c))
+            return ("L",) + j if j else None
+        if k in ("BinaryOperator", "CompoundAssignOperator"):
+            op = e.get("op")
+            if op == ",":
+                return self.value(c[1], env)
+            if op == "=":
+                return self.value(c[1], env)
+            if op in ("+", "-", "+=", "-=") and carries_alias(e.get("t"), e.get("dt")):
+                j = self._join(*(self.value(x, env) for x in c))
+                return ("V",) + j if j else None
+            return None
+        if k in ("ConditionalOperator", "BinaryConditionalOperator"):
+            arms = [self.value(x, env) for x in c[1:]]
+            j = self._join(*arms)
+            if not j:
+                return None
+            return ("L" if all(a is not None and a[0] == "L" for a in arms) else "V",) + j
+        if k == "CXXOperatorCallExpr":
+            op = op_name(e)
+            a = [self.value(x, env) for x in op_args(e)]
+            j = self._join(*a)
+            if not j or op in _CMP_OPS:
+                return None
+            first = a[0] is not None and a[0][0] != "T" if a else False
+            if op in ("*", "[]") and first:
+                return ("L",) + j
+            if op == "->" and first:
+                return ("V",) + j
+            if op == "=":
+                return a[1] if len(a) > 1 and a[1] is not None and a[1][0] != "T" else None
+            return ("V",) + j if carries_alias(e.get("t"), e.get("dt")) else None
+        if k == "CXXMemberCallExpr":
+            r = receiver(e)
+            b = self.value(r[0], env) if r and r[0] is not None else (("T", None, False) if r else None)
+            av = [self.value(x, env) for x in real_args(e)[1:]]
+            if b is not None and b[0] == "T":
+                own = self.own_call_root(e)          # (root, returns a reference) or None
+                if own is None:
+                    return None
+                if carries_alias(e.get("t"), e.get("dt")):
+                    return ("V", own[0], False)
+                return ("L", own[0], False) if own[1] else None
+            j = self._join(b, *av)
+            if not j:
+                return None
+            if carries_alias(e.get("t"), e.get("dt")):
+                return ("V",) + j
+            if b is not None and (b[0] == "L" or (r[1] and b[0] == "V")):
+                return ("L", b[1], b[2])       # an lvalue unless materialised as a temporary (see _ALIAS_TEMPS)
+            return None
+        if k == "CallExpr":
+            av = [self.value(x, env) for x in real_args(e)[1:]]
+            j = self._join(*av)
+            if not j:
+                return None
+            if carries_alias(e.get("t"), e.get("dt")):
+                return ("V",) + j
+            if any(a is not None and a[0] == "L" for a in av):
+                return ("L",) + j              # std::move(x), std::get<1>(*it), std::as_const(x): still the object
+            return None
+        if k in ("CXXConstructExpr", "CXXTemporaryObjectExpr", "InitListExpr", "CXXStdInitializerListExpr",
+                 "CXXParenListInitExpr"):
+            j = self._join(*(self.value(x, env) for x in c))
+            return ("V",) + j if j and carries_alias(e.get("t"), e.get("dt")) else None
+        return None
+
+
+_ALIAS_UP = _ALIAS_CASTS | _ALIAS_TEMPS
+
+
+def direct_handle(t, dt=None):
+    """The type *is* a handle (raw pointer, iterator, view), as opposed to an aggregate / container that holds handles."""
+    s = strip_cvref(dt or t)
+    if s.endswith("*"):
+        return True
+    top = template_name(s)
+    return "iterator" in top.lower() or any(v in top for v in _VIEW_TYPES)
+
+
+def alias_context(par, node, is_ref, direct=True):
+    """How the mention `node` (a DeclRefExpr of a local that holds a handle into protected storage) is used:
+    "copy" (its value initialises / is assigned to something: the data flow goes on), "overwrite" (the local itself gets a
+    new value), "test" (compared / tested for null: the storage is not touched), "return", "discard", or a description of a
+    real use (dereference, member access or call through it, passing it on, reading the referenced object).
+    direct=False: the local is a by-value aggregate / container of handles (pair<iterator, bool>, vector<T *>): its own
+    members and methods are not the protected storage, only the handles taken out of it are followed."""
+    x, p = node, par.get(id(node))
+    while p is not None:
+        k = p.get("k")
+        if not is_ref and not direct and k == "MemberExpr" and cir.kids(p) and cir.kids(p)[0] is x and not p.get("arrow"):
+            if p.get("t") == "<bound member function type>":
+                call = par.get(id(p))
+                if call is None or not carries_alias(call.get("t"), call.get("dt")):
+                    return "copy"
+                x, p = call, par.get(id(call))
+                direct = direct_handle(call.get("t"), call.get("dt"))
+                continue
+            if not carries_alias(p.get("t"), p.get("dt")):
+                return "copy"
+            direct = direct_handle(p.get("t"), p.get("dt"))
+        elif k in _ALIAS_UP:
+            if k == "ImplicitCastExpr" and p.get("ck") == "LValueToRValue" and is_ref:
+                return "read of the referenced object"
+            if k == "ImplicitCastExpr" and p.get("ck") in ("PointerToBoolean",):
+                return "test"
+        elif k in ("CXXConstructExpr", "CXXTemporaryObjectExpr") and is_conversion_construct(p):
+            if is_ref:
+                return "copy of the referenced object"
+        elif k in ("ConditionalOperator", "BinaryConditionalOperator") and p.get("i") and p["i"][0] is not x:
+            pass
+        elif k == "BinaryOperator" and p.get("op") in ("+", "-") and not is_ref:
+            pass
+        else:
+            break
+        x, p = p, par.get(id(p))
+    if p is None:
+        return "discard"
+    k = p.get("k")
+    kids_ = list(cir.kids(p))
+    first = bool(kids_) and kids_[0] is x
+    if k in ("VarDecl", "DecompositionDecl"):
+        return "copy"
+    if k == "ReturnStmt":
+        return "return"
+    if k in ("CompoundStmt", "NullStmt"):
+        return "discard"
+    if k in ("IfStmt", "WhileStmt", "DoStmt", "ForStmt", "ConditionalOperator", "BinaryConditionalOperator"):
+        return "test"
+    if k == "BinaryOperator":
+        op = p.get("op")
+        if op == "=":
+            if first:
+                return "write to the referenced object" if is_ref else "overwrite"
+            return "copy"
+        if op in _CMP_OPS or op in ("&&", "||"):
+            return "read of the referenced object" if is_ref else "test"
+        if op == ",":
+            return "discard" if first else "passing it on"
+    if k == "CompoundAssignOperator":
+        return "write to the referenced object" if is_ref else "overwrite"
+    if k == "UnaryOperator":
+        op = p.get("op")
+        if op == "!":
+            return "read of the referenced object" if is_ref else "test"
+        if op == "&":
+            return "copy"
+        if op == "*":
+            return "dereference"
+        if op in ("++", "--"):
+            return "write to the referenced object" if is_ref else "overwrite"
+    if k == "CXXOperatorCallExpr":
+        op = op_name(p)
+        a = op_args(p)
+        first = bool(a) and a[0] is x
+        if op in _CMP_OPS:
+            return "read of the referenced object" if is_ref else "test"
+        if op == "=":
+            if first:
+                return "write to the referenced object" if is_ref else "overwrite"
+            return "copy"
+        if op in ("->", "*", "[]"):
+            return "dereference" if first else "passing it on"
+        if op in ("++", "--", "+=", "-="):
+            return "advance (reads the element it designates)"
+        return "passing it on"
+    if k == "MemberExpr":
+        return "member access through it"
+    if k == "ArraySubscriptExpr":
+        return "dereference"
+    if k in ("CallExpr", "CXXMemberCallExpr", "CXXConstructExpr", "CXXTemporaryObjectExpr", "InitListExpr"):
+        return "passing it on"
+    return "use"
+
+
+ALIAS_BENIGN = frozenset({"copy", "overwrite", "test", "return", "discard"})
